@@ -250,3 +250,62 @@ func lastWins(ms []Member) []Member {
 	}
 	return out
 }
+
+// numVal is the exact numeric value of a number Value.
+func numVal(v Value) *big.Float {
+	t, b := v.NT, v.NBits
+	if v.Lit != "" {
+		t, b, _ = ExpectNum(v.Lit)
+	}
+	f := new(big.Float).SetPrec(128)
+	switch t {
+	case 'l':
+		return f.SetInt64(int64(b))
+	case 'u':
+		return f.SetUint64(b)
+	}
+	return f.SetFloat64(math.Float64frombits(b))
+}
+
+// MatchNumeric is Match(ordered) with numbers compared by numeric value only
+// (an integer-valued float may come back as an integer): "denotes the same
+// document with numerically equal numbers".
+func MatchNumeric(want, got Value) error { return matchNumeric(want, got, "$") }
+
+func matchNumeric(want, got Value, path string) error {
+	if want.K != got.K {
+		return fmt.Errorf("%s: kind %c != %c (want %s, got %s)", path, want.K, got.K, want, got)
+	}
+	switch want.K {
+	case '#':
+		if numVal(want).Cmp(numVal(got)) != 0 {
+			return fmt.Errorf("%s: number %s != %s", path, want, got)
+		}
+	case 's':
+		if !bytes.Equal(want.Str, got.Str) {
+			return fmt.Errorf("%s: string %q != %q", path, want.Str, got.Str)
+		}
+	case 'a':
+		if len(want.Arr) != len(got.Arr) {
+			return fmt.Errorf("%s: array length %d != %d", path, len(want.Arr), len(got.Arr))
+		}
+		for i := range want.Arr {
+			if err := matchNumeric(want.Arr[i], got.Arr[i], fmt.Sprintf("%s[%d]", path, i)); err != nil {
+				return err
+			}
+		}
+	case 'o':
+		if len(want.Obj) != len(got.Obj) {
+			return fmt.Errorf("%s: object size %d != %d", path, len(want.Obj), len(got.Obj))
+		}
+		for i := range want.Obj {
+			if !bytes.Equal(want.Obj[i].Key, got.Obj[i].Key) {
+				return fmt.Errorf("%s: key #%d %q != %q", path, i, want.Obj[i].Key, got.Obj[i].Key)
+			}
+			if err := matchNumeric(want.Obj[i].Val, got.Obj[i].Val, fmt.Sprintf("%s.%q", path, want.Obj[i].Key)); err != nil {
+				return err
+			}
+		}
+	}
+	return nil
+}
